@@ -215,11 +215,10 @@ theorem udp4_sound {s : UdpSt} {pkt : Bytes} {t : Nat} {a : Bytes} {d : Bool} {t
             right
             simp only [hl, Bool.not_false, true_and, Classical.not_not] at hsrc
             exact hsrc
-        simp only [L3.src, Bool.and_eq_true, Bool.or_eq_true, decide_eq_true_eq, hpr, hfr', hqid,
-          hdst'.1, hdst'.2, and_true, true_and]
-        refine ⟨⟨⟨htype, hsrc'⟩, ?_⟩, ?_⟩
-        · rw [← hqid]; exact hany
-        · simp
+        simp only [L3.src, Bool.and_eq_true, Bool.or_eq_true, decide_eq_true_eq, hpr, hfr',
+          hdst'.1, hdst'.2, hany, and_true, true_and]
+        refine ⟨⟨htype, hsrc'⟩, ?_⟩
+        simp
     · simp at hinfo
 
 end TRV.Proofs
@@ -683,10 +682,7 @@ theorem udp6_sound {s : UdpSt} {pkt : Bytes} {t : Nat} {a : Bytes} {d : Bool} {t
       simp only [genuineUdp6, hview, hquote, hpa, L3.src]
       simp only [Bool.and_eq_true, Bool.or_eq_true, decide_eq_true_eq, hdst'.1, hdst'.2, hq17.1, hany,
         and_true, true_and, beq_self_eq_true]
-      refine ⟨⟨?_, hsrc'⟩, hq17.2⟩
-      rcases htype with ⟨h1, h2⟩ | h3
-      · exact Or.inl ⟨h1, h2⟩
-      · exact Or.inr h3
+      exact ⟨htype, hsrc'⟩
     · simp at hinfo
 
 end TRV.Proofs
